@@ -134,7 +134,12 @@ func C06(tier rt.Tier) int {
 	capacityScenarios(rep)
 	depthScenarios(rep, []int{0}, false)
 	depthScenarios(rep, []int{0}, true)
-	manyKeysScenario(rep, 70000)
+	manyKeysScenario(rep, 70000, 1000)
+	// ONE transaction holding all the block's writes, at sizes on both sides of powers of two
+	for _, n := range []int{257, 1025, 2049, 4097, 8193, 16385, 32769, 65537} {
+		manyKeysScenario(rep, n, 0)
+		manyKeysScenario(rep, n-2, 0)
+	}
 	rep.Set("dedup", haveDump)
 	rep.Set("rule", "for every block forest of the stated size: BFS to closure over events {txn Set/Remove/Commit, opening a new transaction cache for a slot (one universe), block Commit (any order, children before parents), lookups through TransactionCache, BlockCache, QueryBlockCache and StateCache at every block (lookups are events: they memoise)}; every hit must equal the block-tree model's most recent write on the context's own chain (own uncommitted writes first), removed/unknown keys and chains through uncommitted blocks must miss; states merged on model + dumped private cache contents (overlay-added dump file); after every transition all lookups are additionally evaluated on the throw-away instance; plus 12 macro-event capacity scenarios (150..260 sibling writers of one key around the per-key capacity 200, with/without re-reading an old ancestor), deep walks below the capacity, chains of every depth 1..70 with a key written (and, in a variant, rewritten and removed) at the bottom and looked up at every block and through child/transaction/query caches, and one block writing/removing 70000 distinct keys")
 	rep.Assumption("universes stay far below every LRU capacity (asserted); capacity/eviction behaviour is covered by separate macro-scenarios only")
@@ -176,6 +181,9 @@ func C07(tier rt.Tier) int {
 	// must be independent copies exactly as for a walk over two blocks
 	depthScenarios(rep, []int{1, 2, 3, 4, 5}, false)
 	depthScenarios(rep, []int{1, 3}, true)
+	for _, n := range []int{2049, 4097, 65537} {
+		manyKeysScenario(rep, n, 0) // one transaction holding all the block's writes
+	}
 	rep.Set("dedup", haveDump)
 	rep.Set("rule", "same event universes as C06 with mutable value types (harness MutVal, util.LeafNode/FullNode/ExtensionNode/ValueNode): after every Set the harness mutates the object it passed in, after every Get it mutates what it received; every later lookup at every layer must equal the model's snapshot taken at Set time (Encode() bytes for nodes); uncommitted txn writes invisible to block cache and sibling txns, uncommitted block writes invisible to all other blocks; once every block from the context up to the writer is committed the lookup MUST hit (universes asserted below all capacities); plus chains of every depth 1..70 (key written, in a variant rewritten and removed, at the bottom; every block, child block, transaction and query cache looked up twice, every object handed out is mutated)")
 	rep.Assumption("completeness (must-hit) is demanded only because the universes provably cannot evict: <= 4 blocks, <= 2 keys")
